@@ -34,8 +34,8 @@ package rosmar
 //@   ensures [C11:$fn.scoped]          stmtsScoped(c.id)
 //@   ensures [C03,C10:$fn.onetxn]      oneTxn() && sqlAllInTxn() && lockedThroughout("c.bucket.mutex")
 //@   ensures [C10:$fn.commit-first]    $err == nil && db != old(db) ==> committed
-//@   ensures [C03,C04,C15:$fn.cas-fresh]       r2 != r ==> r2.cas == newCas && newCas > old(hlc.highestTime) && casDrawnInTxn()
-//@   ensures [C04,C10,C12:$fn.lastcas] r2 != r ==> bucketLastCas == newCas && collLast(c.id) == newCas
+//@   ensures [C03,C04,C12,C15:$fn.cas-fresh]       r2 != r ==> r2.cas == newCas && newCas > old(hlc.highestTime) && casDrawnInTxn()
+//@   ensures [C04,C10,C12,C15:$fn.lastcas] r2 != r ==> bucketLastCas == newCas && collLast(c.id) == newCas
 //@   ensures [C04,C10:$fn.mark-never-lowered] old(bucketLastCas) <= old(hlc.highestTime) ==> bucketLastCas >= old(bucketLastCas)
 //@   ensures [C17:$fn.rev]             r2 != r ==> r2.rev == nextrev(r)
 //@   ensures [C08,C17:$fn.event]           $err == nil && r2 != r ==> lenlist(posted) == 1 && posted[0] == eventOf(key, r2) && postsAfterCommit()
@@ -56,7 +56,7 @@ package rosmar
 //@
 //@ fn (*HybridLogicalClock).updateLatestTime
 //@   modular
-//@   ensures [C04:hlc.update.max] c.highestTime == max(old(c.highestTime), lastTime)
+//@   ensures [C04,C10:hlc.update.max] c.highestTime == max(old(c.highestTime), lastTime)
 //@   ensures [C04,C20:hlc.update.unlocked] any: nolocks()
 
 // ---------------------------------------------------------------------------------------------------------------
@@ -167,7 +167,7 @@ package rosmar
 //@   use mutator err=err
 //@   ensures [C06:add.iff]      err == nil ==> (added <==> !hasBody(r))
 //@   ensures [C06:add.refused]  err == nil && !added ==> docs == old(docs)
-//@   ensures [C01,C06,C14:add.created] err == nil && added ==> sameDoc(r2, BODY(r, val, b2i(isJSON), absexp(exp, now), newCas))
+//@   ensures [C01,C06,C09,C14:add.created] err == nil && added ==> sameDoc(r2, BODY(r, val, b2i(isJSON), absexp(exp, now), newCas))
 //@   mustfail [C06:add.mf]    added
 //@
 //@ fn (*Collection).set
@@ -179,7 +179,7 @@ package rosmar
 //@   requires !isnull(val)
 //@   requires IntOK(r)
 //@   use mutator err=err
-//@   ensures [C01,C14:set.stored] err == nil ==> sameDoc(r2, BODY(r, val, b2i(isJSON), (if keep then r.exp else absexp(exp, now)), newCas))
+//@   ensures [C01,C09,C14:set.stored] err == nil ==> sameDoc(r2, BODY(r, val, b2i(isJSON), (if keep then r.exp else absexp(exp, now)), newCas))
 //@
 //@ fn (*Collection).remove
 //@   modular in=Remove
@@ -190,7 +190,7 @@ package rosmar
 //@   use mutator err=err
 //@   ensures [C02,C03:remove.necessary] err == nil ==> r.present && (ifCas == nil || *ifCas == r.cas)
 //@   ensures [C02,C03:remove.rejected]  ifCas != nil && r.present && *ifCas != r.cas ==> err != nil && db == old(db) && (iscasmismatch(err) || isdberr(err) || isclosed(err))
-//@   ensures [C01,C05,C14:remove.tombstone] err == nil ==> r2.present && isnull(r2.value) && r2.tombstone == 1 && r2.exp == 0 && r2.isJSON == 0 && r2.cas == newCas && casOut == newCas
+//@   ensures [C01,C05,C09,C14:remove.tombstone] err == nil ==> r2.present && isnull(r2.value) && r2.tombstone == 1 && r2.exp == 0 && r2.isJSON == 0 && r2.cas == newCas && casOut == newCas
 //@   ensures [C01:remove.missing]   !r.present ==> err != nil
 //@   loop 1001 invariant [C05:remove.loop] forall k: Str :: it[k] == (if visited[k] && !issys(k) then NOX else it0[k])
 //@   ensures [C05:remove.sysxattrs] err == nil ==> forall k: Str :: xget(r2.xattrs, k) == (if issys(k) then xget(r.xattrs, k) else NOX)
@@ -248,8 +248,8 @@ package rosmar
 //@   ensures [C06:WriteCas.insert-only-if] err == nil && ins ==> !hasBody(r)
 //@   ensures [C06:WriteCas.insert-refused] ins && hasBody(r) ==> err != nil && db == old(db)
 //@   ensures [C06:WriteCas.insert-creates] ins && !hasBody(r) && !(bit(opt, 2) && cas != 0 && !r.present) ==> err == nil || isdberr(err) || isclosed(err) || count("begin") == 0
-//@   ensures [C01,C05,C06,C07,C14:WriteCas.body-stored] err == nil && !bit(opt, 16) && !isnull(raw) ==> sameDoc(r2, BODY(r, raw, wcJSON(opt, raw), absexp(exp, now), newCas))
-//@   ensures [C01,C05:WriteCas.delete]     err == nil && !bit(opt, 16) && isnull(raw) && r.present ==> isnull(r2.value) && r2.tombstone == 1 && r2.cas == newCas
+//@   ensures [C01,C05,C06,C07,C09,C14:WriteCas.body-stored] err == nil && !bit(opt, 16) && !isnull(raw) ==> sameDoc(r2, BODY(r, raw, wcJSON(opt, raw), absexp(exp, now), newCas))
+//@   ensures [C01,C05,C09:WriteCas.delete]     err == nil && !bit(opt, 16) && isnull(raw) && r.present ==> isnull(r2.value) && r2.tombstone == 1 && r2.cas == newCas
 //@   ensures [C01,C07:WriteCas.append]     err == nil && bit(opt, 16) && hasBody(r) && !isnull(raw) ==> r2.value == concat(r.value, raw) && r2.xattrs == r.xattrs && r2.exp == absexp(exp, now) && r2.tombstone == 0
 //@   ensures [C01:WriteCas.casout]         err == nil ==> casOut == newCas
 
@@ -347,6 +347,7 @@ package rosmar
 //@   ensures [C08,C15,C16:postEvent.one-feed-gets-it]    in feeds1: count("maplookup.present") == 1 ==> count("call:queue.push") == 1
 //@   ensures [C08,C15,C16:postEvent.two-feeds-get-it]    in feeds2: count("maplookup.present") == 1 ==> count("call:queue.push") == 2 && callargN("queue.push", 0, 0) != callargN("queue.push", 1, 0)
 //@   ensures [C08,C15,C16:postEvent.three-feeds-get-it]  in feeds3: count("maplookup.present") == 1 ==> count("call:queue.push") == 3 && callargN("queue.push", 0, 0) != callargN("queue.push", 1, 0) && callargN("queue.push", 1, 0) != callargN("queue.push", 2, 0) && callargN("queue.push", 0, 0) != callargN("queue.push", 2, 0)
+//@   ensures [C08,C09,C17:postEvent.pushes-the-event-or-a-keys-only-copy] in feeds1: count("call:queue.push") == 1 ==> callargN("queue.push", 0, 1).Opcode == event.Opcode && callargN("queue.push", 0, 1).RevNo == event.RevNo && callargN("queue.push", 0, 1).Cas == event.Cas && callargN("queue.push", 0, 1).Expiry == event.Expiry && callargN("queue.push", 0, 1).DataType == event.DataType && callargN("queue.push", 0, 1).Key == event.Key && callargN("queue.push", 0, 1).CollectionID == event.CollectionID && callargN("queue.push", 0, 1).Flags == event.Flags && (isnull(callargN("queue.push", 0, 1).Value) || callargN("queue.push", 0, 1).Value == event.Value)
 //@   ensures [C20:postEvent.unlocked] any: nolocks()
 //@
 //@ fn (*event).asFeedEvent
@@ -449,6 +450,7 @@ package rosmar
 //@   ensures [C08,C15,C16:StartDCPFeed.registers-live] result == nil && !args.Dump ==> count("mapupdate") == 1
 //@   ensures [C16:StartDCPFeed.dump-not-registered]    args.Dump || result != nil ==> count("mapupdate") == 0
 //@   ensures [C09,C15:StartDCPFeed.registers-after-backfill] result == nil && !args.Dump && bf ==> callpos("Collection.enqueueBackfillEvents") < tracepos("mapupdate") && pushpos(1) < tracepos("mapupdate")
+//@   ensures [C15,C16:StartDCPFeed.feed-runs-with-the-callers-arguments] result == nil ==> spawnarg(0).args.Terminator == args.Terminator && spawnarg(0).args.DoneChan == args.DoneChan && spawnarg(0).args.ID == args.ID && spawnarg(0).args.CheckpointPrefix == args.CheckpointPrefix && spawnarg(0).args.Dump == args.Dump && spawnarg(0).args.KeysOnly == args.KeysOnly && spawnarg(0).collection == c
 //@   ensures [C08,C16:StartDCPFeed.registers-before-run] result == nil && !args.Dump ==> tracepos("mapupdate") < tracepos("spawn")
 //@   ensures [C20:StartDCPFeed.unlocked]      any: nolocks()
 //@
@@ -643,7 +645,7 @@ package rosmar
 //@   ensures [C11:wwx.scoped]             stmtsScoped(c.id)
 //@   ensures [C03,C07,C10:wwx.onetxn]     oneTxn() && sqlAllInTxn() && lockedThroughout("c.bucket.mutex")
 //@   ensures [C10:wwx.commit-first]       err == nil ==> committed
-//@   ensures [C03,C04,C07,C15:wwx.cas-fresh]      err == nil ==> r2.cas == newCas && casOut == newCas && newCas > old(hlc.highestTime) && casDrawnInTxn()
+//@   ensures [C03,C04,C07,C12,C15:wwx.cas-fresh]      err == nil ==> r2.cas == newCas && casOut == newCas && newCas > old(hlc.highestTime) && casDrawnInTxn()
 //@   ensures [C04,C10,C12:wwx.lastcas]    err == nil ==> bucketLastCas == newCas && collLast(c.id) == newCas
 //@   ensures [C17:wwx.rev]                err == nil ==> r2.rev == nextrev(r)
 //@   ensures [C08,C17:wwx.event]              err == nil ==> lenlist(posted) == 1 && posted[0] == eventOf(key, r2) && postsAfterCommit()
@@ -653,8 +655,8 @@ package rosmar
 //@   ensures [C06:wwx.insert-only-absent] err == nil && ifCas != nil && *ifCas == 0 ==> !r.present
 //@   ensures [C06:wwx.insertdoc-iff-nobody] opts.insertDoc && err == nil ==> !hasBody(r)
 //@   ensures [C06:wwx.insertdoc-refused]  opts.insertDoc && hasBody(r) ==> err != nil && db == old(db)
-//@   ensures [C01,C05,C07:wwx.body-deleted]  err == nil && val != nil && pnil(*val) ==> isnull(r2.value) && r2.isJSON == 0 && r2.tombstone == 1
-//@   ensures [C01,C05,C07:wwx.body-written]  err == nil && val != nil && plainJSON(*val) ==> r2.value == val.marshaled && r2.isJSON == 1 && r2.tombstone == 0
+//@   ensures [C01,C05,C07,C09:wwx.body-deleted]  err == nil && val != nil && pnil(*val) ==> isnull(r2.value) && r2.isJSON == 0 && r2.tombstone == 1
+//@   ensures [C01,C05,C07,C09:wwx.body-written]  err == nil && val != nil && plainJSON(*val) ==> r2.value == val.marshaled && r2.isJSON == 1 && r2.tombstone == 0
 //@   ensures [C01,C07:wwx.body-kept]      err == nil && val == nil ==> r2.value == (if r.present then r.value else NULL) && r2.isJSON == (if r.present then r.isJSON else 0)
 //@   ensures [C07,C14:wwx.expiry]         err == nil ==> r2.exp == (if exp != nil then absexp(*exp, now) else (if r.present then r.exp else 0))
 //@   ensures [C05,C07:wwx.other-xattrs] err == nil ==> forall k: Str :: !haskey(xattrsPayload, k) ==> xget(r2.xattrs, k) == (if resurrect || !r.present then NOX else (if val != nil && pnil(*val) && !issys(k) then NOX else xget(r.xattrs, k)))
@@ -738,8 +740,12 @@ package rosmar
 //@   ensures [C02,C05:UpdateXattrDeleteBody.delegates] count("call:Collection.writeWithXattrs") == 1 && callarg("Collection.writeWithXattrs", 1) == key && *callarg("Collection.writeWithXattrs", 4) == cas && *callarg("Collection.writeWithXattrs", 5) == exp && callarg("Collection.writeWithXattrs", 0) == c && callarg("Collection.writeWithXattrs", 7) == opts && pnil(*callarg("Collection.writeWithXattrs", 2))
 //@   ensures [C05:UpdateXattrDeleteBody.result] casOut == callret("Collection.writeWithXattrs", 0) && err == callret("Collection.writeWithXattrs", 1)
 //@
+//@ fn validateXattrKey
+//@   modular in=removeXattrs
 //@ fn removeXattrs
 //@   requires validX(rawXattrs)
+//@   ensures [C07:removeXattrs.invalid-key-is-an-error] count("call:validateXattrKey") >= 1 && callret("validateXattrKey", 0) != nil ==> err != nil
+//@   ensures [C07:removeXattrs.error-only-for-invalid-key] err != nil ==> count("call:validateXattrKey") >= 1 && callret("validateXattrKey", 0) != nil
 //@   loop 1001 invariant [C07:removeXattrs.only-removes] forall k: Str :: xattrs[k] == NOX || xattrs[k] == atentry(xattrs[k])
 //@   loop 1001 body [C07:removeXattrs.one-per-key] iter("mapdelete") <= 1
 //@   ensures [C07:removeXattrs.never-adds] forall k: Str :: xget(rawResult, k) == NOX || xget(rawResult, k) == xget(rawXattrs, k)
@@ -774,6 +780,7 @@ package rosmar
 //@   ensures [C01,C05:getRawWithXattrs.row]     result1 == nil ==> r.present && result0.Body == r.value && result0.Cas == r.cas && (result0.IsTombstone <==> r.tombstone != 0)
 //@   ensures [C01:getRawWithXattrs.missing]     !r.present ==> result1 != nil && (ismissing(result1) || isdberr(result1) || isclosed(result1))
 //@   ensures [C01,C11:getRawWithXattrs.frame]   db == old(db) && stmtsScoped(c.id)
+//@   ensures [C01,C03:getRawWithXattrs.one-snapshot] count("sql") <= 1
 //@
 //@ fn (*Collection).GetWithXattrs
 //@   requires DocInv(doc(c.id, key))
